@@ -33,7 +33,9 @@ import (
 
 	"oss.terrastruct.com/d2/d2graph"
 	"oss.terrastruct.com/d2/d2layouts/d2dagrelayout"
+	"oss.terrastruct.com/d2/d2layouts"
 	"oss.terrastruct.com/d2/d2layouts/d2elklayout"
+	"oss.terrastruct.com/d2/d2layouts/d2sequence"
 	"oss.terrastruct.com/d2/d2lib"
 	"oss.terrastruct.com/d2/d2plugin"
 	"oss.terrastruct.com/d2/d2renderers/d2svg"
@@ -67,6 +69,36 @@ func (w c26Plugin) Info(ctx context.Context) (*d2plugin.PluginInfo, error) {
 	return &cp, nil
 }
 
+// c26Router is c26Plugin plus the routes_edges feature: RouteEdges applies the default router (the
+// one d2lib uses when the engine has none) to the edges of g that the caller named.
+type c26Router struct{ c26Plugin }
+
+func (w c26Router) Info(ctx context.Context) (*d2plugin.PluginInfo, error) {
+	i, err := w.c26Plugin.Info(ctx)
+	if err != nil {
+		return nil, err
+	}
+	i.Features = append(append([]d2plugin.PluginFeature{}, i.Features...), d2plugin.ROUTES_EDGES)
+	return i, nil
+}
+
+func (w c26Router) RouteEdges(ctx context.Context, g *d2graph.Graph, es []*d2graph.Edge) error {
+	ok := func(e *d2graph.Edge) bool { return e.Src != nil && e.Dst != nil }
+	var mine []*d2graph.Edge
+	for _, e := range es {
+		if !ok(e) {
+			continue
+		}
+		for _, ge := range g.Edges {
+			if ok(ge) && ge.AbsID() == e.AbsID() {
+				mine = append(mine, ge)
+				break
+			}
+		}
+	}
+	return d2layouts.DefaultRouter(ctx, g, mine)
+}
+
 func c26ChildMode() {
 	if len(os.Args) == 0 {
 		return
@@ -74,6 +106,9 @@ func c26ChildMode() {
 	switch filepath.Base(os.Args[0]) {
 	case "d2plugin-c26dagre":
 		xmain.Main(d2plugin.Serve(c26Plugin{&d2plugin.DagrePlugin, "c26dagre"}))
+		os.Exit(0)
+	case "d2plugin-c26dagrer":
+		xmain.Main(d2plugin.Serve(c26Router{c26Plugin{&d2plugin.DagrePlugin, "c26dagrer"}}))
 		os.Exit(0)
 	case "d2plugin-c26elk":
 		xmain.Main(d2plugin.Serve(c26Plugin{&d2plugin.ELKPlugin, "c26elk"}))
@@ -103,7 +138,7 @@ func c26ExecPlugins(ctx context.Context) ([]d2plugin.Plugin, error) {
 			return
 		}
 		c26Plugins.dir = dir
-		for _, n := range []string{"d2plugin-c26dagre", "d2plugin-c26elk"} {
+		for _, n := range []string{"d2plugin-c26dagre", "d2plugin-c26dagrer", "d2plugin-c26elk"} {
 			if err := os.Symlink(exe, filepath.Join(dir, n)); err != nil {
 				c26Plugins.err = err
 				return
@@ -287,16 +322,43 @@ func (p c26Pay) equal(q c26Pay) bool {
 
 // ---------------------------------------------------------------- heap view of a graph
 
+// c26R is a pointer as the model sees it: nil, the root, g.Objects[I], or an object outside the graph
+// (S = its AbsID()).
+type c26R struct {
+	K int // 0 nil, 1 root, 2 object I, 3 external
+	I int
+	S string
+}
+
+func (r c26R) coq() string {
+	switch r.K {
+	case 1:
+		return "RRoot"
+	case 2:
+		return fmt.Sprintf("(RObj %d)", r.I)
+	case 3:
+		return "(RExt " + coqBytes(r.S) + ")"
+	}
+	return "(RObj 1073741824)" // a nil entry where a pointer is required: dangling
+}
+
+func (r c26R) opt() string {
+	if r.K == 0 {
+		return "None"
+	}
+	return "(Some " + r.coq() + ")"
+}
+
 type c26Obj struct {
 	ID       string
-	Parent   int // -2 nil, -1 root, i position in Objects, >= len: not in Objects
-	Children []int
+	Parent   c26R
+	Children []c26R
 	Pay      c26Pay
 	AbsID    string
 }
 
 type c26Edge struct {
-	Src, Dst           int // -2 nil
+	Src, Dst           c26R
 	SrcArrow, DstArrow bool
 	Index              int
 	Pay                c26Pay
@@ -307,37 +369,40 @@ type c26Heap struct {
 	Objs      []c26Obj
 	Edges     []c26Edge
 	RootLevel int
-	External  int // pointers to objects that are neither the root nor in Objects
+	External  int // distinct pointers to objects that are neither the root nor in Objects
+	Lifeline  int // … of which d2sequence lifeline ends
 	Aliased   bool
 }
 
 func c26HeapOf(g *d2graph.Graph) *c26Heap {
 	h := &c26Heap{RootLevel: g.RootLevel}
-	idx := map[*d2graph.Object]int{}
+	idx := map[*d2graph.Object]c26R{}
 	if g.Root != nil {
-		idx[g.Root] = -1
+		idx[g.Root] = c26R{K: 1}
 	}
 	for i, o := range g.Objects {
 		if _, dup := idx[o]; dup {
 			h.Aliased = true
 			continue
 		}
-		idx[o] = i
+		idx[o] = c26R{K: 2, I: i}
 	}
-	ext := map[*d2graph.Object]int{}
-	ref := func(o *d2graph.Object) int {
+	ext := map[*d2graph.Object]bool{}
+	ref := func(o *d2graph.Object) c26R {
 		if o == nil {
-			return -2
+			return c26R{}
 		}
-		if i, ok := idx[o]; ok {
-			return i
+		if r, ok := idx[o]; ok {
+			return r
 		}
-		if i, ok := ext[o]; ok {
-			return i
+		if !ext[o] {
+			ext[o] = true
+			h.External++
+			if d2sequence.IsLifelineEnd(o) {
+				h.Lifeline++
+			}
 		}
-		i := len(g.Objects) + len(ext)
-		ext[o] = i
-		return i
+		return c26R{K: 3, S: o.AbsID()}
 	}
 	mk := func(o *d2graph.Object, extra string) c26Obj {
 		co := c26Obj{ID: o.ID, Parent: ref(o.Parent), Pay: c26PayOf(o, extra), AbsID: o.AbsID()}
@@ -357,33 +422,15 @@ func c26HeapOf(g *d2graph.Graph) *c26Heap {
 		h.Edges = append(h.Edges, c26Edge{Src: ref(e.Src), Dst: ref(e.Dst), SrcArrow: e.SrcArrow, DstArrow: e.DstArrow,
 			Index: e.Index, Pay: c26PayOf(e, "")})
 	}
-	h.External = len(ext)
 	return h
-}
-
-func c26Ref(i int) string {
-	if i == -1 {
-		return "RRoot"
-	}
-	return fmt.Sprintf("(RObj %d)", i)
-}
-
-func c26OptRef(i int) string {
-	if i == -2 {
-		return "None"
-	}
-	return "(Some " + c26Ref(i) + ")"
 }
 
 func (o c26Obj) coq() string {
 	cs := make([]string, len(o.Children))
 	for i, c := range o.Children {
-		if c == -2 {
-			c = 1 << 30 // a nil entry in ChildrenArray: dangling
-		}
-		cs[i] = c26Ref(c)
+		cs[i] = c.coq()
 	}
-	return fmt.Sprintf("(mkObj %s %s %s %s)", coqBytes(o.ID), c26OptRef(o.Parent), coqList(cs), o.Pay.coq())
+	return fmt.Sprintf("(mkObj %s %s %s %s)", coqBytes(o.ID), o.Parent.opt(), coqList(cs), o.Pay.coq())
 }
 
 func (h *c26Heap) coq() string {
@@ -397,7 +444,7 @@ func (h *c26Heap) coq() string {
 		if idx < 0 {
 			idx = 0
 		}
-		es[i] = fmt.Sprintf("(mkEdge %s %s %s %s %d %s)", c26OptRef(e.Src), c26OptRef(e.Dst), coqBool(e.SrcArrow), coqBool(e.DstArrow), idx, e.Pay.coq())
+		es[i] = fmt.Sprintf("(mkEdge %s %s %s %s %d %s)", e.Src.opt(), e.Dst.opt(), coqBool(e.SrcArrow), coqBool(e.DstArrow), idx, e.Pay.coq())
 	}
 	return fmt.Sprintf("(mkGraph %s %s %s %s)", h.Root.coq(), coqList(os), coqList(es), coqZ(int64(h.RootLevel)))
 }
@@ -546,6 +593,27 @@ func c26FirstDiff(a, b string) string {
 	return fmt.Sprintf("before …%s… after …%s…", cut(a), cut(b))
 }
 
+// a trivially passing case (used when the pipeline rejects the diagram before any graph exists)
+const c26Dummy = "Case (mkGraph (mkObj [] None [] ([],0)) [] [] 0%Z) [[]] None (Some (mkGraph (mkObj [] None [] ([],0)) [] [] 0%Z)) [[]] true false true None"
+
+const c26KFLifeline = "C26-lifeline-end-dropped"
+const c26KFUserinfo = "C26-icon-url-userinfo"
+
+// signature of the second known finding: an icon URL with a userinfo part (user[:password]@host)
+func c26HasUserinfo(g *d2graph.Graph) bool {
+	for _, o := range append([]*d2graph.Object{g.Root}, g.Objects...) {
+		if o != nil && o.Icon != nil && o.Icon.User != nil {
+			return true
+		}
+	}
+	for _, e := range g.Edges {
+		if e.Icon != nil && e.Icon.User != nil {
+			return true
+		}
+	}
+	return false
+}
+
 func c26SerdeCase(g *d2graph.Graph, m c26Meta) (cs Case) {
 	cs.Class = m.Class + "/" + m.Stage
 	cs.KF = m.KF
@@ -556,12 +624,21 @@ func c26SerdeCase(g *d2graph.Graph, m c26Meta) (cs Case) {
 		if e := recover(); e != nil {
 			cs.ImplFail = append(cs.ImplFail, fmt.Sprintf("harness panic: %v", e))
 			if cs.Coq == "" {
-				cs.Coq = "Case (mkGraph (mkObj [] None [] ([],0)) [] [] 0%Z) [[]] None None [] true false true None"
+				cs.Coq = c26Dummy
 			}
 		}
 	}()
 	h := c26HeapOf(g)
 	impl["objects"], impl["edges"], impl["external_pointers"] = len(h.Objs), len(h.Edges), h.External
+	if h.Lifeline > 0 && h.Lifeline == h.External {
+		// signature of the known finding: an edge of the graph handed to SerializeGraph ends in a
+		// d2sequence lifeline-end object (not in g.Objects)
+		cs.KF = append(cs.KF, c26KFLifeline)
+		impl["lifeline_ends"] = h.Lifeline
+	}
+	if c26HasUserinfo(g) {
+		cs.KF = append(cs.KF, c26KFUserinfo)
+	}
 	hyp, hypDetail := c26JSONHyp(g)
 	if !hyp {
 		impl["json_roundtrip"] = hypDetail
@@ -680,7 +757,7 @@ func c26Ctx() (context.Context, context.CancelFunc) {
 }
 
 // c26Render compiles, lays out (with the given core layout) and renders.
-func c26Render(ctx context.Context, text, engine string, theme int64, layout func(string) (d2graph.LayoutGraph, error)) (svg []byte, g *d2graph.Graph, err error) {
+func c26Render(ctx context.Context, text, engine string, theme int64, layout func(string) (d2graph.LayoutGraph, error), router func(string) (d2graph.RouteEdges, error)) (svg []byte, g *d2graph.Graph, err error) {
 	defer func() {
 		if e := recover(); e != nil {
 			err = fmt.Errorf("panic: %v", e)
@@ -691,7 +768,7 @@ func c26Render(ctx context.Context, text, engine string, theme int64, layout fun
 		return nil, nil, err
 	}
 	ro := &d2svg.RenderOpts{ThemeID: &theme}
-	d, g, err := d2lib.Compile(ctx, text, &d2lib.CompileOptions{Ruler: ruler, Layout: go2.Pointer(engine), LayoutResolver: layout}, ro)
+	d, g, err := d2lib.Compile(ctx, text, &d2lib.CompileOptions{Ruler: ruler, Layout: go2.Pointer(engine), LayoutResolver: layout, RouterResolver: router}, ro)
 	if err != nil {
 		return nil, nil, err
 	}
